@@ -217,6 +217,14 @@ fn judge(case: &Case<Model>, rep: &mut Report) {
                     rep.violate(sig("reviver-missing-for-field"), format!("field {key:?} is declared as Uint8Array but no ReviverFunc / ReplacerFunc is generated"), case.detail(json!({"key": key})));
                 }
             }
+            // a type that enters the output through a configured mapping onto a helper type (`Vec<u8>` -> Uint8Array here)
+            // registers the helpers wherever it occurs - field, payload, alias target, nested in containers
+            if used.contains("Uint8Array") && case.cfg.type_mappings.values().any(|v| v == "Uint8Array") {
+                rep.count("ts_mapped_helper_type_outputs_checked", 1);
+                if rv.is_none() || rp.is_none() {
+                    rep.violate(sig("helpers-missing-for-mapped-type"), "Uint8Array (mapped from Vec<u8>) is used but ReviverFunc / ReplacerFunc are not generated".to_string(), case.detail(json!(null)));
+                }
+            }
             // strong form (informational): a typeshare-introduced Date / Uint8Array without helpers
             if (used.contains("Date") || used.contains("Uint8Array")) && rv.is_none() {
                 rep.count("ts_date_or_bytes_type_without_helpers(informational)", 1);
